@@ -49,7 +49,7 @@ def gen_cases(rng, tier):
     for i in range(n):
         pick = rng.choice(["default", "default", "json", "null"])
         secret = rng.random() < 0.6
-        cfg = {"pickler": pick, "secret": secret, "digest": rng.choice(["md5", "sha1", "sha256", "sum"])}
+        cfg = {"pickler": pick, "secret": secret, "digest": rng.choice(["md5", "sha1", "sha256", "sum"]), "via_url": rng.random() < 0.3}
         if pick == "json" and rng.random() < 0.3:
             v = rng.choice(BYTES)
         elif rng.random() < 0.25:
@@ -62,6 +62,16 @@ def gen_cases(rng, tier):
             v = serrun.Money(rng.choice([0, 5, 123, -1]))
         cases.append({"config": cfg, "key": rng.choice(KEYS), "value": _enc(v), "custom": custom})
     return cases
+
+
+def _twin(v):
+    """a value that compares equal to v but has another type, if there is a simple one"""
+    if isinstance(v, bool): return int(v)
+    if isinstance(v, int) and v in (0, 1): return bool(v)
+    if isinstance(v, int) and abs(v) < 2 ** 50: return float(v)
+    if isinstance(v, float) and abs(v) < 2 ** 50 and v == int(v): return int(v)
+    if isinstance(v, list) and v and all(type(x) is int and x in (0, 1) for x in v): return [bool(x) for x in v]
+    return None
 
 
 # JSON-able encoding of arbitrary generated values (evidence samples / replays)
@@ -96,6 +106,9 @@ def run_impl(case):
             await mem.init()
             out = {}
             try:
+                tw = _twin(v)
+                if tw is not None:          # the key first holds an EQUAL value of another type (1 / True / 1.0 ...): the overwrite must win
+                    await mem.set(case["key"], tw)
                 await mem.set(case["key"], v)
                 st = mem.store[case["key"]][1]
                 try:
